@@ -315,9 +315,21 @@ def promote_representatives():
         h["thorough"] = []
 
 
+def promote_std_generic():
+    """A std harness that is in the quick tier for some property serves C03 and C20 there too
+    (the result is shared through the cache; found necessary by seeded change C20-m2, an array
+    merge change that only manifests with real readiness tracking)."""
+    for h in H:
+        if h["config"] == "std" and h["quick"]:
+            extra = set(h["thorough"]) & {"C03", "C20"}
+            h["quick"] = sorted(set(h["quick"]) | extra)
+            h["thorough"] = sorted(set(h["thorough"]) - extra)
+
+
 def main():
     promote_cheap()
     promote_representatives()
+    promote_std_generic()
     json.dump({"harnesses": H, "assumptions": ASSUMPTIONS}, open(os.path.join(ROOT, "harnesses.json"), "w"), indent=1)
     props = sorted({p for h in H for p in h["quick"] + h["thorough"]})
     print(len(H), "entries;", "properties:", " ".join(props))
